@@ -34,6 +34,19 @@ def _eq(a, b):
     return abs(fa - fb) <= TOL * max(1.0, abs(fa), abs(fb))
 
 
+def _eq0(a, b):
+    """comparison with the literal 0: exact"""
+    if isinstance(a, (tuple, list, np.ndarray)) or isinstance(b, (tuple, list, np.ndarray)):
+        a, b = np.asarray(a), np.asarray(b)
+        return bool(np.all(a == b))
+    if a is None or b is None:
+        return a is b
+    try:
+        return float(a) == float(b)
+    except (TypeError, ValueError):
+        return a == b
+
+
 class _EqRewriter(ast.NodeTransformer):
     """a == b  ->  _eq(a, b);  a != b -> not _eq(a, b)   (chains are split)"""
 
@@ -44,10 +57,14 @@ class _EqRewriter(ast.NodeTransformer):
         parts = []
         left = node.left
         for op, right in zip(node.ops, node.comparators):
+            # a comparison with the literal 0 is a sign test, not an approximate equality: `x != 0` in the code under contract is
+            # exact, and a tolerance of 1e-9 would call an overlap of 2^-34 "zero" (the spec would disagree with correct code)
+            zero = any(isinstance(z, ast.Constant) and type(z.value) in (int, float) and z.value == 0 for z in (left, right))
+            fn = "_eq0" if zero else "_eq"
             if isinstance(op, ast.Eq):
-                parts.append(ast.Call(ast.Name("_eq", ast.Load()), [left, right], []))
+                parts.append(ast.Call(ast.Name(fn, ast.Load()), [left, right], []))
             elif isinstance(op, ast.NotEq):
-                parts.append(ast.UnaryOp(ast.Not(), ast.Call(ast.Name("_eq", ast.Load()), [left, right], [])))
+                parts.append(ast.UnaryOp(ast.Not(), ast.Call(ast.Name(fn, ast.Load()), [left, right], [])))
             else:
                 parts.append(ast.Compare(left, [op], [right]))
             left = right
@@ -93,7 +110,7 @@ def _sumto(n, f):
 def base_namespace():
     load_all()
     ns = {
-        "_eq": _eq, "forall": _forall, "exists": _exists, "implies": lambda a, b: (not a) or bool(b),
+        "_eq": _eq, "_eq0": _eq0, "forall": _forall, "exists": _exists, "implies": lambda a, b: (not a) or bool(b),
         "iff": lambda a, b: bool(a) == bool(b), "sumto": _sumto, "toreal": float,
         "toint": lambda v: int(v), "floor": lambda v: int(np.floor(v)), "isint": lambda v: float(v).is_integer(), "abs": abs, "min": min, "max": max, "len": len, "int": int, "float": float,
         "sqrt": np.sqrt, "sin": np.sin, "cos": np.cos, "exp": np.exp, "log": np.log, "arctan2": np.arctan2,
